@@ -261,6 +261,7 @@ def stepText (toks : List String) : Option String :=
   | ["parsearchs", hex] => do let s ← strOfHex hex; return optStr (parseArchiveInfoList s) archsStr
   | ["printarchs", as] => do let as ← parseArchs as; return hexOfStr (archsString as)
   | ["parsets", hex] => do let s ← strOfHex hex; return optStr (parseTimestamp s) toString
+  | ["parsetsflag", hex] => do let s ← strOfHex hex; return optStr (parseTimestamp s) toString
   | ["printts", n] => do let n ← n.toNat?; return hexOfStr (timestampString n)
   | ["aggname", n] => do let n ← n.toNat?; return optStr (aggName n) id
   | ["aggparse", s] => some (optStr (aggParse s) toString)
